@@ -65,7 +65,42 @@ def tsum(t):
     return sum(t)
 
 
-FUNCS = dict(inc=inc, pair=pair, add=add, odd=odd, parity=parity, ident=ident, accrs=accrs, nxt=nxt, tsum=tsum)
+class Boom(Exception):
+    """failure injected into the j-th user-function invocation of one emit (C16)"""
+
+
+class _Fault:
+    def __init__(self):
+        self.target = 0      # 0 = no failure
+        self.count = 0
+        self.raised = None
+
+    def arm(self, target):
+        self.target = target
+        self.count = 0
+        self.raised = None
+
+
+FAULT = _Fault()
+
+
+def _hooked(f):
+    def g(*a, **k):
+        FAULT.count += 1
+        if FAULT.target and FAULT.count == FAULT.target:
+            FAULT.raised = Boom("invocation %d (%s)" % (FAULT.count, f.__name__))
+            raise FAULT.raised
+        return f(*a, **k)
+    g.__name__ = f.__name__
+    return g
+
+
+def _record(x):
+    return None
+
+
+FUNCS = dict((k, _hooked(v)) for k, v in dict(inc=inc, pair=pair, add=add, odd=odd, parity=parity, ident=ident, accrs=accrs,
+                                              nxt=nxt, tsum=tsum, record=_record).items())
 
 
 # ---- node step functions ---------------------------------------------------------------------
@@ -171,6 +206,9 @@ def step(spec, st, port, v, nports=1):
         return st, [V(v.val[pk], v.prov)]
     if k == "collect":
         return st + (v,), []
+    if k == "sinkf":       # a sink calling a user function; emits nothing
+        FUNCS[spec[1]](v.val)
+        return st, []
     if k == "union":
         return st, [v]
     if k == "zip":
@@ -281,7 +319,16 @@ class RefGraph:
         out.append((nid, v))
         for d in list(self.down[nid]):
             port = self.up[d].index(nid)
-            st, outs = step(self.spec[d], self.state[d], port, v, len(self.up[d]))
+            try:
+                st, outs = step(self.spec[d], self.state[d], port, v, len(self.up[d]))
+            except Boom:
+                # abort semantics: the failing node keeps its state.  A synchronous node aborts
+                # the whole push; a coroutine-style node (partition) carries the failure in its
+                # awaitable and the sibling branches still see the element (continue mode).
+                if getattr(self, "continue_mode", False):
+                    self.boomed = True
+                    continue
+                raise
             self.state[d] = st
             for o in outs:
                 self._emit_from(d, o, out)
@@ -303,3 +350,9 @@ class RefGraph:
 
     def key(self):
         return tuple((nid, state_key(self.state[nid])) for nid in self.order)
+
+    def snapshot(self):
+        return dict(self.state)
+
+    def restore(self, snap):
+        self.state = dict(snap)
